@@ -160,7 +160,9 @@ func (f *fetcher) fetchUpstream(req *http.Request, key cache.CacheKey, clientHd 
 		return fetchResult{}, err
 	}
 
-	cached, err := f.handleUpstreamResponse(req, resp, key, clientHd, false)
+	// Whether a 416 from upstream is retried without the Range header is a live setting
+	noRetryOn416 := !f.cfg.Proxy.RetryOnRange416.Read()
+	cached, err := f.handleUpstreamResponse(req, resp, key, clientHd, noRetryOn416)
 	if err != nil {
 		resp.Body.Close()
 		slog.Error("Error handling upstream response after cache miss", "url", req.URL, "error", err)
